@@ -126,10 +126,24 @@ Example C20_example_entry_points :
   /\ o_exit (cli (fun _ => SimAbort) "/w" "/pkg" "i" (Some "o.out") "x" true) = 1%Z.
 Proof. vm_compute. repeat split. Qed.
 
-(* what the model says about GEOPHIRESv3.main() called directly with a RELATIVE or MISSING output argument (no theorem,
-   and not exercised by the correspondence because the files land inside the installed package, i.e. inside the
-   repository under test): the report is resolved against the package directory, the default JSON against the caller's *)
+(* GEOPHIRESv3.main() called directly (sys.argv = [a; inp; rel] or [a; inp]) with a RELATIVE or MISSING output argument:
+   the files do not depend on the caller's directory at all; the report is resolved against the PACKAGE directory main()
+   chdir()s into (a relative name lands there, the default HDR.out too) while the default JSON goes to the caller's
+   directory.  Tied by tools/props/C20.py on real runs with the chdir target substituted by a scratch directory. *)
+Theorem C20_direct_pipeline_paths : forall cwd cwd' pkg a inp rel : string,
+  wf_abs (parse pkg) = true -> wf_abs (parse cwd) = true -> is_abs (parse rel) = false ->
+  main_files cwd pkg [a; inp; rel] = main_files cwd' pkg [a; inp; rel]
+  /\ parse (f_report (main_files cwd pkg [a; inp; rel]))
+     = {| p_root := p_root (parse pkg); p_parts := (p_parts (parse pkg) ++ p_parts (parse rel))%list |}
+  /\ parse (f_report (main_files cwd pkg [a; inp]))
+     = {| p_root := p_root (parse pkg); p_parts := (p_parts (parse pkg) ++ ["HDR.out"])%list |}
+  /\ option_map parse (f_json (main_files cwd pkg [a; inp]))
+     = Some {| p_root := p_root (parse cwd); p_parts := (p_parts (parse cwd) ++ ["HDR.json"])%list |}.
+Proof. exact direct_pipeline_paths. Qed.
+Print Assumptions C20_direct_pipeline_paths.
+
 Example C20_example_direct_relative :
   main_files "/w" "/pkg" [""; "/w/in.txt"; "rel.out"] = {| f_report := "/pkg/rel.out"; f_json := Some "/pkg/rel.json" |}
-  /\ main_files "/w" "/pkg" [""; "/w/in.txt"] = {| f_report := "/pkg/HDR.out"; f_json := Some "/w/HDR.json" |}.
-Proof. vm_compute. split; reflexivity. Qed.
+  /\ main_files "/w" "/pkg" [""; "/w/in.txt"] = {| f_report := "/pkg/HDR.out"; f_json := Some "/w/HDR.json" |}
+  /\ is_abs (parse "rel.out") = false /\ wf_abs (parse "/pkg") = true.
+Proof. vm_compute. repeat split; reflexivity. Qed.
